@@ -116,6 +116,11 @@ fn classes(s: &Stream) -> Vec<&'static str> {
                             out.push("V1");
                         }
                     }
+                    for (j, &v) in vals.iter().enumerate() {
+                        if j + 1 < vals.len() && (ns[v].st == "lit" || ns[v].st == "fold") && !out.contains(&"V3") {
+                            out.push("V3");
+                        }
+                    }
                 }
             }
         }
@@ -125,7 +130,7 @@ fn classes(s: &Stream) -> Vec<&'static str> {
 
 fn class_for(stage: &str, s: &Stream) -> String {
     let cl = classes(s);
-    let want: &[&str] = if stage.starts_with("validate") { &["V1", "V2"] } else { &["K1", "K2"] };
+    let want: &[&str] = if stage.starts_with("validate") { &["V1", "V2", "V3"] } else { &["K1", "K2"] };
     for w in want {
         if cl.contains(w) {
             return w.to_string();
